@@ -160,6 +160,12 @@ def run_e1(case, scratch_root, props, inject=None):
     for t in tasks:
         if t["kind"] in gen.PROC_KINDS:
             scripts[t["id"]] = {"steps": [["file", "o", realrun.b64(b"x")]]}
+    if len(hist) == 1:
+        # real launch failure: a command line longer than MAX_ARG_STRLEN makes execve fail with E2BIG
+        for t in tasks:
+            if t["kind"] in gen.PROC_KINDS and hist[0].get("script", {}).get(t["id"], {}).get("launch_fail"):
+                t["raw_run"] = True
+                t["run"] = "true " + "x" * 140000
     pr = realrun.Project(scratch_root, tasks, scripts)
     tb = pr.tb
     recs = []
@@ -414,7 +420,7 @@ def gen_cases(seed, n, focus, max_tasks=7):
         for inv in c["history"]:
             # real faults only: exit codes and signals (launch failures are E2's)
             for k in list(inv.get("script", {})):
-                if "launch_fail" in inv["script"][k]:
+                if "launch_fail" in inv["script"][k] and len(c["history"]) > 1:
                     inv["script"][k] = {"exit": 9}
     return cases
 
